@@ -254,6 +254,25 @@ ADD7 = {
  "C16": " Round 7: SEQ-W2-SPLIT, SEQ-R2-EOF, WMC-READ.",
  "C17": " Round 7: SEQ-W2-SPLIT.",
 }
+ADD8 = {
+ "C01": " Round 8: CE-MATCHLEN, OB-DICTCAP-RANGE.",
+ "C03": " Round 8: OB-DICTCAP-RANGE.",
+ "C05": " Round 8: EF-IO: formatting without %w is not reporting.",
+ "C06": " Round 8: CE-MATCHLEN, WR-LZMA-HDRDICT, SEQ-D1.",
+ "C07": " Round 8: WR-LZMA-HDRDICT.",
+ "C08": " Round 8: CE-DEFAULT-CTYPE, SIB-REOPEN-STATE.",
+ "C09": " Round 8: EF-IO: formatting without %w is not reporting.",
+ "C10": " Round 8: CE-CHUNKHDR (lib).",
+ "C11": " Round 8: SEQ-RAWFILL.",
+ "C12": " Round 8: SIB-REOPEN-STATE; GL-GLOBAL follows locals and interface invokes.",
+ "C14": " Round 8: GL-GLOBAL follows locals and interface invokes.",
+ "C15": " Round 8: CE-CHUNK-AUTOMATON (lib).",
+ "C16": " Round 8: CE-DEFAULT-CTYPE.",
+ "C17": " Round 8: CE-MATCHLEN, WR-BLOCKSIZE-DEFAULT.",
+ "C18": " Round 8: OB-DICTCAP-RANGE.",
+}
+for pid, text in ADD8.items():
+    ADD7[pid] = ADD7.get(pid, "") + text
 for pid, text in ADD7.items():
     ADD6[pid] = ADD6.get(pid, "") + text
 for pid, text in ADD6.items():
